@@ -473,6 +473,14 @@ static Verdict run_C15(const Scn &s) {
       return x;
     }
     if (h.out != f.out) {
+      // an operation whose output is not a function of its inputs even in a fresh process (a seed drawn from a clock or an
+      // entropy source the simulation does not own) cannot be compared byte by byte: run it fresh once more to find out
+      mkdir(dir.c_str(), 0700);
+      int st2;
+      std::vector<Outcome> o2 = in_child(dir + "/g" + std::to_string(k), [&]() { Outcome y = exec_op(ops[k], inputs[k]); send_outcome(y); }, st2);
+      rm_rf(dir);
+      g_stats.add("history.fresh_forks", 1);
+      if (o2.size() == 1 && o2[0].status == 1 && o2[0].ret == f.ret && o2[0].out != f.out) { g_stats.add("probe.operation_not_deterministic_when_fresh", 1); continue; }
       Verdict x = viol("output-differs@" + ops[k].kind, "operation " + std::to_string(k) + " (" + opdesc(ops[k]) + ") wrote different output bytes as part of the history (" + std::to_string(h.out.size()) + " vs " + std::to_string(f.out.size()) + " bytes)");
       x.case_hash = ch; x.trace_hash = th;
       return x;
